@@ -797,6 +797,9 @@ func (t *TriDense) SolveTo(dst *Dense, trans bool, b Matrix) error {
 	}
 
 	dst.reuseAsNonZeroed(n, nrhs)
+	// The system is solved in place in dst against the receiver's own
+	// storage, so the two must not share elements.
+	dst.checkOverlap(generalFromTriangular(t.mat))
 	bU, bTrans := untranspose(b)
 	if dst == bU {
 		if bTrans {
